@@ -10,9 +10,11 @@ def check(ctx, rep):
         "handlers pending. R11.2 cancellation edges: with a CancelledError edge forked at every may-suspend "
         "await of the run (inlined into the nested form, which is the task root an enclosing scheduler "
         "cancels) and of the broadcast, every path that leaves the ownership scope has first cancelled and "
-        "awaited all owned tasks (live set or registry form). R11.3 every .cancel() of the package is part "
-        "of cancel-all-then-await-unbounded, which is what makes 'at most one CancelledError per activation' "
-        "the right model.")
+        "awaited all owned tasks (live set or registry form). The edge is forked a second time at the awaits "
+        "reached while the first CancelledError is being handled (an enclosing scheduler that is cancelled "
+        "itself while it waits cancels its tasks again: three levels of nesting, cancellation that takes "
+        "time); a third delivery meets the same code in the same state. R11.3 every .cancel() of the package "
+        "is part of cancel-all-then-await-unbounded (a task is never cancelled and then abandoned).")
     rep.declined = ["job code that swallows CancelledError (T9)"]
     rep.trusted = ["T1 asyncio.wait does not cancel its argument when cancelled", "T3", "T9"]
     runrules.exit_discipline(ctx, rep, "R11.1", "R11.1", "R11.1")
